@@ -47,7 +47,7 @@ def _struct(rel, name, vals, ty=None):
     return AggV(tuple(vals[k] for k, _ in sorted(ix.items(), key=lambda kv: kv[1])), ty or name)
 
 
-def run_get_transactions(S, ob, search_type, grouped, exact, nrows=2, limit_value=None):
+def run_get_transactions(S, ob, search_type, grouped, exact, nrows=2, limit_value=None, script_filter=True):
     """one scenario: the searched script type (Lock/Type), grouped or not, exact mode or prefix mode; `nrows` index rows follow the start key, each with symbolic membership in
     the searched prefix, symbolic coordinates and a symbolic answer of the filter lookup"""
     f = [x for x in S.prog.funcs if x.kind == "fn" and x.short == "get_transactions" and "indexer/src/service.rs" in x.name and "{closure" not in x.name]
@@ -83,7 +83,7 @@ def run_get_transactions(S, ob, search_type, grouped, exact, nrows=2, limit_valu
         return int(m.group(1))
 
     filt = _struct(JT, "IndexerSearchKeyFilter", {
-        "script": mk_option(True, OpaqueV("filter_script_json", "Script"), "Option<Script>"), "script_len_range": mk_option(False, None, "Option<IndexerRange>"),
+        "script": mk_option(True, OpaqueV("filter_script_json", "Script"), "Option<Script>") if script_filter else mk_option(False, None, "Option<Script>"), "script_len_range": mk_option(False, None, "Option<IndexerRange>"),
         "output_data": mk_option(False, None, "Option<JsonBytes>"), "output_data_filter_mode": mk_option(False, None, "Option<IndexerSearchMode>"),
         "output_data_len_range": mk_option(False, None, "Option<IndexerRange>"), "output_capacity_range": mk_option(False, None, "Option<IndexerRange>"),
         "block_range": mk_option(has_range.t, OpaqueV("block_range_json", "IndexerRange"), "Option<IndexerRange>")})
@@ -240,7 +240,7 @@ def run_get_transactions(S, ob, search_type, grouped, exact, nrows=2, limit_valu
     orig_len = {}
     ps = S.run(ctx, f, [ctx.ref_to(handle), sk, EnumV(0, (), "IndexerOrder"), OpaqueV("limit_json", "JsonUint<u32>"), mk_option(False, None, "Option<JsonBytes>")])
     return dict(ctx=ctx, ps=ps, gets=gets, qopts=qopts, prefixes=prefixes, tag=tag, keyv=keyv, ctype=ctype, ictype=ictype, inpre=inpre, klen_ok=klen_ok, bn=bn, txi=txi, ioi=ioi, iot=iot, frow=frow, same_tx=same_tx,
-                limit=limit, r0=r0, r1=r1, has_range=has_range, nrows=nrows)
+                limit=limit, r0=r0, r1=r1, has_range=has_range, nrows=nrows, script_filter=script_filter)
 
 
 def _sym(ctx, rx):
@@ -257,7 +257,8 @@ def _included(R, ctx, exact):
         c = [R["inpre"][j].t for j in range(k + 1)]                      # the scan stops at the first key outside the searched prefix
         if exact:
             c.append(T.eq(_sym(ctx, r"len\.row%d_key[\w.]*" % k), T.add(_sym(ctx, r"uf\.len_prefix_\w*"), 17)))     # exact mode: the key holds exactly the script + 17 bytes of coordinates
-        c.append(R["frow"][k].t)                                          # the cell also carries the filter script (row of the other script kind under the same coordinates)
+        if R.get("script_filter", True):
+            c.append(R["frow"][k].t)                                      # the cell also carries the filter script (row of the other script kind under the same coordinates)
         c.append(T.implies(R["has_range"].t, T.and_(T.le(R["r0"].t, R["bn"][k].t), T.lt(R["bn"][k].t, R["r1"].t))))
         inc.append(T.and_(*c))
     return inc
@@ -342,10 +343,10 @@ def m4_get_transactions(S):
     JTX = field_index(JT, "IndexerTxWithCell")
     for search_type in ("Lock", "Type"):
         for grouped in (False, True):
-            for limit_value, exact in ((2, True), (1, True), (2, False)):
-                R = run_get_transactions(S, ob, search_type, grouped, exact=exact, limit_value=limit_value, nrows=(3 if (S.tier == "thorough" and not grouped) else 2))
+            for limit_value, exact, script_filter in ((2, True, True), (1, True, True), (2, False, True), (2, True, False)):
+                R = run_get_transactions(S, ob, search_type, grouped, exact=exact, limit_value=limit_value, nrows=(3 if (S.tier == "thorough" and not grouped) else 2), script_filter=script_filter)
                 ctx, ps = R["ctx"], R["ps"]
-                tag = R["tag"] + f"_limit{limit_value}"
+                tag = R["tag"] + f"_limit{limit_value}" + ("" if script_filter else "_no_script_filter")
                 if exact:
                     pre = [T.ge(ctx.int("request_limit", "usize").t, limit_value), T.le(_sym(ctx, r"uf\.len_prefix_\w*"), 1 << 20), T.ge(_sym(ctx, r"uf\.len_prefix_\w*"), 0)]
                 else:       # storage invariant: every key of the transaction index ends with 17 bytes of coordinates
@@ -355,7 +356,9 @@ def m4_get_transactions(S):
                 S.prove(ctx, ob, f"{tag}_the_scan_runs_over_the_transaction_index_of_the_searched_script_kind", [], bool(R["qopts"] and all(q == (kp["TxLockScript"], kp["TxTypeScript"]) for q in R["qopts"]) and bool(R["prefixes"]) and all(re.fullmatch(r"(uf\.deref_)?prefix[_.]*", x) for x in R["prefixes"])),
                         extra={"note": str((R["qopts"][:2], sorted(R["prefixes"])))})
                 want_variant = "TxTypeScript" if search_type == "Lock" else "TxLockScript"
-                good = bool(R["gets"])
+                if not script_filter:
+                    S.prove(ctx, ob, f"{tag}_no_lookup_without_a_script_filter", [], bool(not R["gets"]))
+                good = bool(R["gets"]) or not script_filter
                 goals = []
                 for k, kf, pc in R["gets"]:
                     if k is None or kf[0] != want_variant or kf[1] != "packed(filter_script_json)" or kf[2] != R["bn"][k].t or kf[3] != R["txi"][k].t or kf[4] != R["ioi"][k].t or not (isinstance(kf[5], tuple) and kf[5][0] == "celltype"):
@@ -363,7 +366,7 @@ def m4_get_transactions(S):
                         continue
                     goals.append(T.implies(T.and_(*pc), T.iff(T.eq(R["iot"][k].t, 0), bool(kf[5][1] == R["ictype"].index("Input")))))
                 S.prove(ctx, ob, f"{tag}_the_filter_lookup_reads_the_row_of_the_other_script_kind_under_the_coordinates_of_the_row_at_hand", [], good, extra={"note": str([(k, kf) for k, kf, _ in R["gets"]][:3])})
-                S.prove(ctx, ob, f"{tag}_the_filter_lookup_uses_the_cell_type_of_the_row_at_hand", pre, T.and_(*goals) if goals else False)
+                S.prove(ctx, ob, f"{tag}_the_filter_lookup_uses_the_cell_type_of_the_row_at_hand", pre, T.and_(*goals) if goals else bool(not script_filter))
                 if grouped:
                     _grouped_answer(S, ctx, ob, tag, R, ps, pre, limit_value, exact)
                     continue
